@@ -22,6 +22,14 @@ META = {
 }
 
 OUTCOME_CODE = {"Translated": 0, "Rejected": 1, "Ignored": 2}
+# statement kinds that were silently dropped until "fix: reject statements the transpiler cannot translate instead of
+# dropping them" (DispatchSpec.former_gap_kinds + nested def): generated since, every script holding one must be rejected
+FORMER_GAP_KINDS = ["annassign", "chained_assign", "subscript_assign", "attr_assign", "walrus_expr", "dev_unknown_method",
+                    "dev_unknown_method_args", "serial_unknown_method", "undeclared_method_call", "del_stmt", "assert_stmt",
+                    "raise_stmt", "yield_stmt", "await_stmt", "semicolon_join", "backslash_continuation", "bracket_continuation",
+                    "if_inline_body", "while_inline_body", "with_stmt", "match_stmt", "class_def", "async_def", "decorator",
+                    "while_else", "for_else", "for_over_list", "for_over_name", "try_finally", "try_except_else", "nonlocal_decl",
+                    "nested_def"]
 CTX_CODE = {c: i for i, c in enumerate(D.CONTEXTS)}
 
 # what the hook may report for the lines of the fixed set (generated `allowed` leaves)
@@ -168,6 +176,7 @@ def run(ctx: C.Ctx):
     for i in range(n_asg):
         progs.append(G.gen_asg_program(rng, maxdepth=rng.choice([2, 3, 3, 4])))
     progs += G.systematic_asg_programs()
+    progs = [G.imports_as_directives(tops) for tops in progs]
     _learn_replines(progs)
     inguard = []       # (prog index, unit, ltops, final junk, lines)
     for pi, tops in enumerate(progs):
@@ -259,6 +268,36 @@ def run(ctx: C.Ctx):
     for (pi, u, lt, fj, lines), r in zip(inguard, impl_in):
         if pi in base and base[pi][0] is lines and r.get("exc"):
             ctx.fail("a script of the supported subset in canonical layout is rejected", {"script": lines}, "accepted", r.get("exc"), key="canonical-rejected")
+
+    # ---- oracle B2 (since the repair of the silent drops; this region used to be excluded by the guard "no statement of a
+    # kind in DispatchSpec.known_gaps"): a statement of a formerly dropped kind inserted at a random statement position of an
+    # accepted program (any depth, any block kind, function bodies, the main loop) must make the transpiler REJECT the script
+    inj = []
+    accepted = [pi for pi in sorted(base) if not base[pi][1].get("exc")]
+    for _ in range(600 if thorough else 150):
+        if not accepted:
+            break
+        pi = rng.choice(accepted)
+        lines = list(base[pi][0])
+        spots = [k for k, l in enumerate(lines) if l.strip() and not l.lstrip().startswith("#")
+                 and not re.match(r"\s*(elif\b|else\s*:|except\b)", l)]
+        if not spots:
+            continue
+        k = rng.choice(spots)
+        ind = lines[k][: len(lines[k]) - len(lines[k].lstrip())]
+        kind = rng.choice(FORMER_GAP_KINDS)
+        if kind == "nested_def" and not ind:
+            continue                                  # a def at column 0 is an ordinary function
+        probe = D.KINDS[D.KIND_IDS.index(kind)][1]
+        inj.append((kind, len(ind), lines[:k] + [ind + pl for pl in probe] + lines[k:]))
+    inj_res = C.run_impl("c07_impl.py", {"cases": [["trace", l] for _, _, l in inj]}, timeout=3000) if inj else []
+    for (kind, depth, lines), r in zip(inj, inj_res):
+        evaluations += 1
+        dist["formerly_excluded_now_generated"]["unsupported:" + kind] = dist["formerly_excluded_now_generated"].get("unsupported:" + kind, 0) + 1
+        nontrivial.add(("inject", kind, "\n".join(lines)))
+        if not r.get("exc"):
+            ctx.fail(f"a script containing the unsupported statement kind {kind} is accepted: the statement disappears from (or is mistranslated in) the firmware without a diagnostic",
+                     {"script": lines, "probe": D.KINDS[D.KIND_IDS.index(kind)][1]}, "rejected with an error", "accepted", key="unsupported-accepted:" + kind)
 
     # ---- oracle C: the block structure of the FIRMWARE is Python's (every control header of the script once, every
     # numbered statement and every break/continue/return under the conditions and in the function/phase Python puts
@@ -647,7 +686,8 @@ def run(ctx: C.Ctx):
         probe = D.KINDS[D.KIND_IDS.index(kind)][1]
         if len(probe) == 1 and w.get("ignored") is not None and not w["exc"] and kind not in ("comment_line",):
             hooked = any(e[2] == probe[0].strip() for e in w["ignored"])
-            silently_filtered = kind in ("from_import_reduino", "from_import_core", "target_call")   # filtered before the three hook sites
+            silently_filtered = kind in ("from_import_reduino", "from_import_core", "target_call",   # filtered before the hook sites
+                                         "import_plain", "import_as", "from_import", "from_import_star")  # (every import since _import_end)
             partial = kind in ("semicolon_join",)      # the line yields a node for its first statement; the tail is lost without passing a hook site
             if oc == "Ignored" and not hooked and not silently_filtered and not partial:
                 ctx.disagree("hook _VERIF_IGNORED vs black-box observation (ignored line not reported by the hook)", script, "reported", w["ignored"])
@@ -712,9 +752,14 @@ def run(ctx: C.Ctx):
     hdist = {}
     if have_model:
         d_model = ctx.model([[18, a, [sets[k] for k in L.SET_KEYS], t] for t, a, sets in dcases])
-        for (t, a, sets), ri, mo in zip(dcases, d_impl, d_model):
+        # the END of the loop for the lines that reach it (Wire case 23): class and the patterns the tail itself tries
+        tail_idx = [j for j, (ri, mo) in enumerate(zip(d_impl, d_model)) if mo[2][0] == 6 and ri.get("isexpr") is not None]
+        t_model = dict(zip(tail_idx, ctx.model([[23, bool(d_impl[j]["isexpr"]), dcases[j][0]] for j in tail_idx])))
+        for j, ((t, a, sets), ri, mo) in enumerate(zip(dcases, d_impl, d_model)):
             n_disp += 1
             mtrace = [[e[0], bool(e[1])] for e in mo[1]]
+            if j in t_model:
+                mtrace += [[e[0], bool(e[1])] for e in t_model[j][3]]
             h = mo[2]
             hname = {0: "import", 1: "eq", 2: "prefix", 3: "rx", 4: "search", 5: "assign", 6: "tail"}[h[0]]
             hkey = hname + (":" + rx_names[h[1]] if h[0] in (0, 3, 4) else "")
@@ -735,6 +780,35 @@ def run(ctx: C.Ctx):
                              {"trace": [[rx_names[i], b] for i, b in rtrace], "asg": ri["asg"], "exc": ri["exc"], "nodes": ri["nodes"]})
             nontrivial.add(("dispatch", hkey, t))
         evaluations += n_disp
+        # (ii-b) the END of the loop (repaired: "unknown -> ignore" became ValueError): every line that reaches the tail is
+        # an expression statement, or skipped as `pass` / a global declaration, or REJECTED - model = code, and as an oracle
+        # on the code alone: a line that reached the tail never vanishes without a node, an exception or a hook record
+        tdist = {}
+        for j in tail_idx:
+            t, ri, mo = dcases[j][0], d_impl[j], t_model[j]
+            evaluations += 1
+            cls = {0: "expression", 1: "skipped", 2: "rejected", 3: "dropped"}[mo[1]]
+            reasons = sorted({e[3] for e in (ri.get("ignored") or [])})
+            if ri["exc"]:
+                real = "rejected"
+            elif ri["nodes"]:
+                real = "translated"
+            elif reasons:
+                real = "skipped:" + ",".join(reasons)
+            else:
+                real = "vanished"
+            tdist[cls + " -> " + real] = tdist.get(cls + " -> " + real, 0) + 1
+            if real == "vanished" or real.startswith("skipped:unknown") or "expr-translation-failed" in real:
+                ctx.fail(f"the line {t!r} reached the end of the dispatch loop and was dropped: no node, no exception, not one of the lines without a meaning on the device",
+                         {"line": t}, "translated, rejected, or skipped as pass / global / print / constant / host-side serial call",
+                         {"nodes": ri["nodes"], "exc": ri["exc"], "hook": ri.get("ignored")}, key="tail-dropped")
+                continue
+            ok = ((cls == "rejected" and real == "rejected") or (cls == "skipped" and real == "skipped:no-device-meaning")
+                  or (cls == "expression" and (real in ("rejected", "translated") or real in ("skipped:print", "skipped:constant-expression", "skipped:host-only"))))
+            if not ok:
+                ctx.disagree("end of the dispatch loop (tail_class_of on the regenerated tail facts) vs the real _parse_simple_lines", t, cls, real)
+            nontrivial.add(("tail", cls, t))
+        dist["tail_lines"] = dict(sorted(tdist.items()))
     dist["dispatch_handlers_reached"] = dict(sorted(hdist.items()))
     # (iii) the spacing theorems: the Coq renderers are the Python twins; inside the exact guard Python's tokenizer sees the same
     # statement AND the real parser builds the same nodes as for the canonical spacing (oracle); outside: model = code only
@@ -829,7 +903,7 @@ def run(ctx: C.Ctx):
                  "indent unit 1-8 spaces / tab / two tabs, optional spacing at marked places) + out-of-guard perturbations (model-vs-code only). "
                  "lexical: exhaustive strings over {a,blank,#,',\",\\} up to length 5 (6 thorough) and over {blank,tab,x,#,FF,NBSP,U+3000} up to length 3 (4), "
                  "realistic lines, every start index of generated scripts for the three span functions, header texts with near-misses. "
-                 "accounting: one probe per (69 kinds x 4 contexts) with and without the probe line. "
+                 "accounting: one probe per (70 kinds x 4 contexts) with and without the probe line; formerly dropped statement kinds (127 (kind, context) pairs, now rejected) inserted at a random statement position of generated programs - every such script must be rejected. "
                  f"firmware block structure: the programs above plus {n_hollow} random programs in which every body (if / elif / else / while / for / try / except / def / main loop) is, with probability 0.35, made only of lines of the fixed set (pass, print, docstring, import), with chains of up to 5 elif and with break / bare return, plus an exhaustive family (every if chain of 1-3 branches and optional else, every try with 1-2 handlers, every loop, with bodies over {{device statement, pass, print}}, at column 0 / in the main loop / in a function / in a for body); "
                  "oracle C compares, per function of the sketch, the multiset of (path, item) - items: control headers, numbered statements, break / continue / return; path: function, enclosing loops / try / catch, and for a member of an if chain its own condition and the negated earlier ones - computed from the skeleton and from the firmware read with the C++ reader; the smallest failing script per class is shrunk by removing statements while the real transpiler still fails. "
                  "emitter: random IR control skeletons (depth <= 4, bodies empty with probability 0 / 0.3 / 0.6, 11 leaf node kinds incl. one that emits nothing and one that opens its own block, 5 indentations) plus all 81+8 placements of empty / line-less / non-empty bodies in a 3-branch chain, through the real _emit_block and the extracted emit_list (lines equal), whole hand-built Programs through the real emit() (sections), the extracted C++ reader against its Python twin on every emitted block and every real firmware section, and py_cs of the model (parse_lines -> to_ir) against the compound statements of the real firmware of every generated program. "
